@@ -210,16 +210,33 @@ def mk_op(op, l, r):
         return ("int", l[1] * r[1])
     if op == "<<" and l[0] == "int" and r[0] == "int" and r[1] < 200:
         return ("int", l[1] << r[1])
+    if op == "+":
+        # canonical sums: flatten, add the integer literals up, sort the other addends, literal last
+        adds = _flatten_sum(l) + _flatten_sum(r)
+        k = sum(a[1] for a in adds if a[0] == "int")
+        rest = sorted((a for a in adds if a[0] != "int"), key=repr)
+        if not rest:
+            return ("int", k)
+        t = rest[0]
+        for a in rest[1:]:
+            t = ("op", "+", t, a)
+        if k:
+            t = ("op", "+", t, ("int", k))
+        return t
     if op in COMMUTATIVE:
-        if op == "+" and (r[0] == "int" or l[0] == "int"):
-            if l[0] == "int":
-                l, r = r, l
-            # (x + a) + b -> x + (a + b)
-            if l[0] == "op" and l[1] == "+" and l[3][0] == "int":
-                return mk_op("+", l[2], ("int", l[3][1] + r[1]))
-        elif repr(l) > repr(r):
+        if repr(l) > repr(r):
             l, r = r, l
     return ("op", op, l, r)
+
+
+def _flatten_sum(t):
+    if t[0] == "op" and t[1] == "+":
+        return _flatten_sum(t[2]) + _flatten_sum(t[3])
+    return [t]
+
+
+def _unused():
+    return None
 
 
 def lin(t):
@@ -427,16 +444,23 @@ def ashow(a):
 
 
 class Known:
-    """Set of atoms true on the current path."""
+    """Set of atoms true on the current path, plus disjunctions (`ors`): each a tuple of
+    alternatives, each alternative a tuple of atoms, at least one of which holds."""
 
-    def __init__(self, atoms=None):
+    def __init__(self, atoms=None, ors=None):
         self.atoms = set(atoms) if atoms else set()
+        self.ors = list(ors) if ors else []
 
     def copy(self):
-        return Known(self.atoms)
+        return Known(self.atoms, self.ors)
 
     def add(self, atoms):
         for a in atoms:
+            if a[0] == "or":
+                alts = tuple(tuple(x) for x in a[1])
+                if alts not in self.ors and len(self.ors) < 4:
+                    self.ors.append(alts)
+                continue
             self.atoms.add(a)
             # boolean consequences
             if a[0] == "b" and a[1][0] == "isempty":
@@ -446,8 +470,22 @@ class Known:
                 else:
                     self.atoms.add(atom_le(("int", 1), ln))
 
+    def cases(self):
+        """Known objects without disjunctions, one per combination of alternatives (at most 16)."""
+        out = [Known(self.atoms)]
+        for alts in self.ors:
+            nxt = []
+            for k in out:
+                for alt in alts:
+                    k2 = Known(k.atoms)
+                    k2.add(alt)
+                    nxt.append(k2)
+            out = nxt[:16]
+        return out
+
     def kill(self, pred):
         self.atoms = {a for a in self.atoms if not any(mentions(t, pred) for t in a[1:3] if isinstance(t, tuple))}
+        self.ors = [alts for alts in self.ors if not any(mentions(t, pred) for alt in alts for a in alt for t in a[1:3] if isinstance(t, tuple))]
 
     def meet(self, other):
         """Facts holding on both paths."""
@@ -550,6 +588,10 @@ class Known:
     def entails(self, goal):
         if goal in self.atoms:
             return True
+        if self.ors:
+            if Known(self.atoms).entails(goal):
+                return True
+            return all(k.entails(goal) for k in self.cases())
         if goal[0] == "b":
             return False
         if goal[0] == "le":
@@ -583,7 +625,10 @@ class Known:
         return False
 
     def show(self):
-        return sorted(ashow(a) for a in self.atoms)
+        out = sorted(ashow(a) for a in self.atoms)
+        for alts in self.ors:
+            out.append("(" + " or ".join(" and ".join(ashow(a) for a in alt) for alt in alts) + ")")
+        return out
 
 
 def cond_atoms(T, n, positive=True):
@@ -602,11 +647,11 @@ def cond_atoms(T, n, positive=True):
         if op == "&&":
             if positive:
                 return cond_atoms(T, n["l"], True) + cond_atoms(T, n["r"], True)
-            return []
+            return _mk_or(cond_atoms(T, n["l"], False), cond_atoms(T, n["r"], False))
         if op == "||":
             if not positive:
                 return cond_atoms(T, n["l"], False) + cond_atoms(T, n["r"], False)
-            return []
+            return _mk_or(cond_atoms(T, n["l"], True), cond_atoms(T, n["r"], True))
     if k == "Block" and not n["stmts"] and "expr" in n:
         return cond_atoms(T, n["expr"], positive)
     if k == "Lit" and n.get("lk") == "bool":
@@ -615,6 +660,21 @@ def cond_atoms(T, n, positive=True):
         return []
     t = T.term(n)
     return [("b", t, positive)]
+
+
+def _mk_or(a, b):
+    """A disjunction of two conjunctions of plain atoms (nested disjunctions are flattened when a side
+    is itself a single disjunction; otherwise the information is dropped)."""
+    def alts(x):
+        if len(x) == 1 and x[0][0] == "or":
+            return list(x[0][1])
+        if any(y[0] == "or" for y in x) or not x:
+            return None
+        return [tuple(x)]
+    A, B = alts(a), alts(b)
+    if A is None or B is None:
+        return []
+    return [("or", tuple(A + B))]
 
 
 def _intlike(F, n):
@@ -1017,6 +1077,7 @@ class Walker:
             return None
         if len(live) == 1:
             self.T.env = live[0][1]
+            self._joined_ors = list(live[0][0].ors)
             return live[0][0].atoms
         env = {}
         keys = set()
@@ -1036,6 +1097,7 @@ class Walker:
         atoms = set(live[0][0].atoms)
         for k, _ in live[1:]:
             atoms &= k.atoms
+        self._joined_ors = [o for o in live[0][0].ors if all(o in k.ors for k, _ in live[1:])]
         return atoms
 
     def walk_if(self, n, K):
@@ -1065,6 +1127,7 @@ class Walker:
         if atoms is None:
             return True
         K.atoms = atoms
+        K.ors = self._joined_ors
         return False
 
     def let_facts(self, pat, term, K):
@@ -1138,6 +1201,7 @@ class Walker:
         if atoms is None:
             return len(results) > 0
         K.atoms = atoms
+        K.ors = self._joined_ors
         return False
 
     def arm_facts(self, pat, st, scrut, K):
